@@ -186,6 +186,6 @@ def extra_checks(pid, tier, seed):
                      [o for o in _frame_obligations(EXEC_CONE, REQUEST_OWNED, 'request-cone')] + _inventory_obligations())]
     if pid == 'C17':
         return [dict(kind='frame', name='registry frame + shared state inventory', obligations=_registry_obligations() + _inventory_obligations())]
-    if pid == 'C08':
+    if pid in ('C08', 'C09'):
         return [dict(kind='frame', name='gather / spawn rule', obligations=_gather_obligations())]
     return []
